@@ -147,6 +147,7 @@ class Gen:
         self.reusable = []         # completed plain functions (Func) taking one int
         self.class_forms = {}      # class name -> references ({form, file, name}) through which it was instantiated
         self.form_cache = {}
+        self.js = False            # restrict to what has a JavaScript counterpart (see generate_js)
         self.value_access = {}     # function qual -> access form through which it was taken as a value
         self.building = []
 
@@ -371,8 +372,10 @@ class Gen:
             if rng.random() < (0.75 if not has_init_above else 0.45):
                 init = Func("__init__", ["self", "a"], cmod, cls=c)
                 c.methods.append(init)
-                if has_init_above and rng.random() < 0.6:
-                    how = rng.choice(["super", "explicit"])
+                if self.js and base is not None and not has_init_above:
+                    init.body.add("super().__init__()")          # JavaScript demands it; the implicit base constructor is no callee
+                if has_init_above and (self.js or rng.random() < 0.6):
+                    how = "super" if self.js else rng.choice(["super", "explicit"])
                     if how == "super":
                         init.body.add("super().__init__(a)", self.site("super-init-call", f"{base.find('__init__').name}.__init__"))
                     else:
@@ -437,6 +440,8 @@ class Gen:
         o, cs = self.construct(ctx, cls)
         self.method_calls(ctx, o, cls, [cs])
         r = self.rng.random()
+        if r < 0.2 and self.js:
+            r = 0.5                 # o.m taken as a value loses its receiver in JavaScript
         if r < 0.2:
             names = [n for n in cls.all_method_names() if n != "__init__"]
             n = self.rng.choice(names)
@@ -949,3 +954,145 @@ def event_kind(project, site, callee_qual, recv_classes=(), under_try=False, cal
             return rel + suffix
         return f"{kind}:{rel}{suffix}"
     return kind + suffix
+
+
+# ---------------------------------------------------------------------------------------------------------------------
+# JavaScript rendering of the same generated programs (single file). Every Python line becomes exactly one JavaScript line
+# (closing braces are appended to the last line of a block), so the line numbers of sites and defs stay valid.
+
+import re as _re
+
+_ID = r"[A-Za-z_][A-Za-z_0-9]*"
+
+
+def generate_js(seed, tag, **kw):
+    """A single-file project rendered as JavaScript + an instrumented copy for node (same events as sys.setprofile gives).
+    Constructs without a JavaScript counterpart (explicit Base.__init__(self, ..), plain bound-method values) are not generated."""
+    g = Gen(random.Random(seed), tag, n_files=1, package=False, **kw)
+    g.js = True
+    g.weights["static"] = g.weights.get("static", 1)
+    proj = g.build()
+    rel = next(iter(proj["files"]))
+    text = proj["files"][rel]
+    site_at = {s["line"]: s for s in proj["sites"]}
+    def_at = {d["line"]: d for d in proj["defs"]}
+    plain, instr = py_to_js(text, site_at, def_at)
+    jrel = rel[:-3] + ".js"
+    for coll in (proj["sites"], proj["defs"]):
+        for x in coll:
+            x["file"] = jrel
+            for k in ("callee", "qual", "name"):
+                if isinstance(x.get(k), str):
+                    x[k] = x[k].replace("__init__", "constructor")
+            x["deps"] = [[jrel, d[1]] for d in x.get("deps", [])] if "deps" in x else x.get("deps")
+    for c in proj["classes"].values():
+        c["file"] = jrel
+        c["methods"] = ["constructor" if m == "__init__" else m for m in c["methods"]]
+    proj["files"] = {jrel: plain}
+    proj["node_files"] = {jrel: instr}
+    proj["main"] = jrel
+    proj["lang"] = "javascript"
+    return proj
+
+
+NODE_PROLOGUE = (
+    "var __S = [], __E = [], __L = 0;\n"
+    "function __in(name, self) {\n"
+    "  var chain = [[__S.length ? __S[__S.length - 1][0] : '<module>', __L]];\n"
+    "  for (var i = __S.length - 1; i >= 0; i--) chain.push([i > 0 ? __S[i - 1][0] : '<module>', __S[i][1]]);\n"
+    "  var cn = null; try { cn = (self && self.constructor) ? self.constructor.name : null; } catch (e) {}\n"
+    "  __E.push([name, cn, chain]); __S.push([name, __L]);\n"
+    "}\n"
+    "function __out() { __S.pop(); }\n"
+)
+
+
+def py_to_js(text, site_at, def_at):
+    lines = text.rstrip("\n").split("\n")
+    ind = [(len(l) - len(l.lstrip(" "))) // 4 for l in lines]
+    plain, instr = [], []
+    block_kind = {}          # indent level of the block's header -> 'func' | 'class' | 'other'   (stack by depth)
+    stack = []               # [(depth of header, kind)]
+    pending_static = False
+    for i, raw in enumerate(lines):
+        d = ind[i]
+        s = raw.strip().replace("self.", "this.")
+        while stack and stack[-1][0] >= d:
+            stack.pop()
+        in_class = bool(stack) and stack[-1][1] == "class"
+        lineno = i + 1
+        opens = None
+        pre = ""
+        m = _re.match(rf"def ({_ID})\((.*)\):$", s)
+        if s.startswith("@"):
+            js = "// " + s
+            pending_static = True
+        elif m:
+            name, params = m.group(1), [p.strip() for p in m.group(2).split(",") if p.strip()]
+            q = def_at[lineno]["qual"].replace("__init__", "constructor")
+            if in_class:
+                if params and params[0] in ("self", "this", "cls") and not (pending_static and params[0] != "cls"):
+                    params = params[1:]
+                jname = "constructor" if name == "__init__" else name
+                js = ("static " if pending_static else "") + f"{jname}({', '.join(params)}) {{"
+                this = "null" if (pending_static or jname == "constructor") else "this"
+            else:
+                js = f"function {name}({', '.join(params)}) {{"
+                this = "null"
+            pending_static = False
+            opens = ("func", f' __in("{q}", {this}); try {{')
+        elif _re.match(rf"class ({_ID})(\((.*)\))?:$", s):
+            mm = _re.match(rf"class ({_ID})(\((.*)\))?:$", s)
+            js = f"class {mm.group(1)}" + (f" extends {mm.group(3)}" if mm.group(3) else "") + " {"
+            opens = ("class", "")
+        elif s == "pass":
+            js = ";"
+        elif s == "else:":
+            js, opens = "else {", ("other", "")
+        elif s == "try:":
+            js, opens = "try {", ("other", "")
+        elif s.startswith("except"):
+            js, opens = "catch (e) {", ("other", "")
+        elif s == "finally:":
+            js, opens = "finally {", ("other", "")
+        elif _re.match(r"if (.*):$", s):
+            js, opens = f"if ({s[3:-1]}) {{", ("other", "")
+        elif _re.match(r"while (.*):$", s):
+            js, opens = f"while ({s[6:-1]}) {{", ("other", "")
+        elif _re.match(rf"for ({_ID}) in range\((\d+)\):$", s):
+            mm = _re.match(rf"for ({_ID}) in range\((\d+)\):$", s)
+            js, opens = f"for (var {mm.group(1)} = 0; {mm.group(1)} < {mm.group(2)}; {mm.group(1)}++) {{", ("other", "")
+        elif _re.match(rf"for ({_ID}) in ({_ID}):$", s):
+            mm = _re.match(rf"for ({_ID}) in ({_ID}):$", s)
+            js, opens = f"for (var {mm.group(1)} of {mm.group(2)}) {{", ("other", "")
+        elif s.startswith("return"):
+            js = s + ";"
+        elif s.startswith("super().__init__("):
+            js = "super(" + s[len("super().__init__("):] + ";"
+        else:
+            site = site_at.get(lineno)
+            mm = _re.match(rf"({_ID}) = (.*)$", s)
+            if mm:
+                rhs = mm.group(2)
+                if site is not None and site["kind"].startswith("constructor"):
+                    rhs = "new " + rhs
+                js = f"var {mm.group(1)} = {rhs};"
+            else:
+                js = s + ";"
+        if lineno in site_at:
+            pre = f"__L = {lineno}; "
+        pj, ij = js, pre + js
+        if opens is not None:
+            stack.append((d, opens[0]))
+            ij = pre + js + opens[1]
+        # close the blocks that end after this line
+        nxt = ind[i + 1] if i + 1 < len(lines) else 0
+        if opens is not None and nxt <= d:           # empty block (cannot happen: bodies always have a line)
+            nxt = d
+        closing = [k for (dd, k) in stack if dd >= nxt]
+        for k in reversed(closing):
+            pj += " }"
+            ij += " } finally { __out(); } }" if k == "func" else " }"
+        plain.append("    " * d + pj)
+        instr.append("    " * d + ij)
+    return "\n".join(plain) + "\n", NODE_PROLOGUE + "\n".join(instr) + "\n"
